@@ -82,7 +82,8 @@ def _cases(rng, quick, gr):
     try:
         subs = {os.path.join(d, "sub.xbb"): "name sub\nversion 1.0\nVac | 4\nBSgate(0.5, 0.1) | [4, 7]\n",
                 os.path.join(d, "tsub.xbb"): "name tsub\nversion 1.0\nRgate({a}) | 1\nSgate({a}, {b}) | [0, 1]\n",
-                os.path.join(d, "one.xbb"): "name one\nversion 1.0\nVac | 9\n"}
+                os.path.join(d, "one.xbb"): "name one\nversion 1.0\nVac | 9\n",
+                os.path.join(d, "gap.xbb"): "name gap\nversion 1.0\nRgate(0.5) | 0\nBSgate(0.5, 0.1) | [0, 2]\n"}
         for pth, txt in subs.items():
             with open(pth, "w") as f:
                 f.write(txt)
@@ -102,7 +103,10 @@ def _cases(rng, quick, gr):
         calls = ["sub | [2, 3, 3]", "sub | [2, 3, 2]", "sub | [2, 3, 4]", "sub | 2", "sub | [3, 3, 3]", "one | [1, 1]", "one | [0, 1]",
                  "sub(a=1) | [2, 3]", "one(x=0.5) | 3", "tsub | [2, 3]", "tsub(a=1) | [2, 3]", "tsub(b=1) | [2, 3]",
                  "tsub(a=1, b=2, c=3) | [2, 3]", "tsub(a=1, c=2) | [2, 3]", "tsub(1, 2) | [2, 3]", "tsub(a=1, b=2) | [2, 3, 3]",
-                 "tsub(a=1, b=2) | 2", "for int i in 0:2\n    sub | [i, i + 1, i + 1]", "for int i in 0:2\n    tsub(a=i) | [i, i + 1]"]
+                 "tsub(a=1, b=2) | 2",
+                 # as many modes as the LARGEST mode number of the included program suggests (its modes are not 0..n-1)
+                 "gap | [4, 5, 6]", "gap | [0, 1, 2]", "sub | [0, 1, 2, 3, 4, 5, 6, 7]", "one | [0, 1, 2, 3, 4, 5, 6, 7, 8, 9]", "gap | 3",
+                 "for int i in 0:2\n    sub | [i, i + 1, i + 1]", "for int i in 0:2\n    tsub(a=i) | [i, i + 1]"]
         for c in calls:
             for pre in ["", "Vac | 0\n"]:
                 yield {"tag": "include-call", "text": "name f\nversion 1.0\n" + inc + "\n" + pre + c + "\nVac | 5\n", "files": dict(subs)}
